@@ -257,7 +257,11 @@ def expr(n, cx):
     if k == "MemberExpr":
         p = member_path(n, cx.aliases)
         if p is None:
-            raise Unsupported("member expression base too complex")
+            # `base->arr[i].m` (member of an element of a member array of structs): only contexts that model such arrays
+            h = getattr(cx, "read_elem_member", None)
+            if h is None:
+                raise Unsupported("member expression base too complex")
+            return h(n)
         return cx.read_member(p, n)
     if k == "ArraySubscriptExpr":
         base, idx = n["inner"]
@@ -266,8 +270,12 @@ def expr(n, cx):
         if base.get("kind") == "MemberExpr":
             p = member_path(base, cx.aliases)
             if p is None:
-                raise Unsupported("array base too complex")
-            bt = cx.read_member(p, base)
+                h = getattr(cx, "read_elem_member", None)
+                if h is None:
+                    raise Unsupported("array base too complex")
+                return "(((%s).getD (%s).toNat 0 : Int))" % (h(base), expr(idx, cx))
+            else:
+                bt = cx.read_member(p, base)
         elif base.get("kind") == "DeclRefExpr":
             bt = cx.read_var(base["referencedDecl"]["name"], base)
         else:
